@@ -1825,6 +1825,7 @@ func suiteC05(s *Shard, n int) {
 func suiteC06(s *Shard, n int) {
 	r := s.R
 	for i := 0; i < n; i++ {
+		samePixel := false
 		vb := r.ViewBox()
 		if vb.MinX == vb.MaxX || r.Chance(40) {
 			vb = ivg.DefaultViewBox
@@ -1906,7 +1907,15 @@ func suiteC06(s *Shard, n int) {
 					vb2 = ivg.ViewBox{MinX: vb.MinX * 2, MinY: vb.MinY * 2, MaxX: vb.MaxX * 2, MaxY: vb.MaxY * 2}
 				}
 			}
-			cs = append(cs, Call{Name: "reset", VB: vb2, Pal: ivg.DefaultPalette}, Call{Name: "start", F: fl(r.Coord(), r.Coord())})
+			st := fl(r.Coord(), r.Coord())
+			if last := cs[len(cs)-2]; last.Name == "A" && r.Chance(60) {
+				// … and its path starts at the very PIXEL where the first graphic's last arc ended — another point of another
+				// viewBox (round 5, C06-J: a Renderer that recognised "the pen is where my last arc ended" and then reused that
+				// arc's end point, in the coordinates of a viewBox that is no longer the current one)
+				st = fl(last.F[3]+(vb2.MinX-vb.MinX), last.F[4]+(vb2.MinY-vb.MinY))
+				samePixel = true
+			}
+			cs = append(cs, Call{Name: "reset", VB: vb2, Pal: ivg.DefaultPalette}, Call{Name: "start", F: st})
 			for k := 1 + r.Intn(2); k > 0; k-- {
 				rx, ry := float32(1+r.Intn(400))/8, float32(1+r.Intn(400))/8
 				if r.Chance(15) {
@@ -1922,6 +1931,10 @@ func suiteC06(s *Shard, n int) {
 			cs = append(cs, Call{Name: "Z"})
 		}
 		rect := r.Rect()
+		if samePixel && vb == ivg.DefaultViewBox {
+			// a power-of-two scale, so that the two points do map to the same pixel bit for bit
+			rect = image.Rect(0, 0, 64<<uint(r.Intn(3)), 64<<uint(r.Intn(3)))
+		}
 		cs = r.Retarget(cs, rect, 10)
 		s.emitRen(rect, nil, cs)
 		line := RenCase(rect, nil, cs)
